@@ -179,6 +179,8 @@ struct Driver {
     make: Box<dyn Fn() -> Box<dyn FnOnce(RepositoryBackends, Arc<Gate>) -> Result<String, String> + Send>>,
     /// expected logical content by label after the command
     expect: std::collections::BTreeMap<String, vkit::logical::LTree>,
+    /// own execution cap per shard (long executions)
+    cap: Option<usize>,
 }
 
 fn open_with(bes: &RepositoryBackends) -> Result<Repository<rustic_core::OpenStatus>, String> {
@@ -209,16 +211,17 @@ fn backup_driver(name: &'static str, data_pack: u32, tree_pack: u32, idx_max: us
             })
         }),
         expect,
+        cap: None,
     }
 }
 
 fn prune_driver(name: &'static str, fast: bool) -> Driver {
-    prune_driver_with(name, fast, 600, 500, false)
+    prune_driver_with(name, fast, 600, 500, false, None)
 }
 
 /// `repack_all` with one-blob packs: the repack writes more packs per blob type than the pack
 /// writer pipeline holds at once
-fn prune_driver_with(name: &'static str, fast: bool, data_pack: u32, tree_pack: u32, repack_all: bool) -> Driver {
+fn prune_driver_with(name: &'static str, fast: bool, data_pack: u32, tree_pack: u32, repack_all: bool, cap: Option<usize>) -> Driver {
     // three snapshots of the evolving source, the first two forgotten: prune has packs to repack
     let env = Env::single();
     _ = env.init_with(config_with_packs(2, data_pack, tree_pack)).expect("init");
@@ -255,6 +258,7 @@ fn prune_driver_with(name: &'static str, fast: bool, data_pack: u32, tree_pack: 
             })
         }),
         expect,
+        cap,
     }
 }
 
@@ -289,6 +293,43 @@ fn copy_driver(name: &'static str) -> Driver {
             })
         }),
         expect,
+        cap: None,
+    }
+}
+
+/// A snapshot whose root holds 300 distinct sub-directories (plus 2 earlier snapshots): the commands
+/// that walk all trees with the parallel tree streamer (check, prune's plan, copy) have hundreds of
+/// tree ids queued at once.
+fn wide_tree_driver(name: &'static str, cap: usize) -> Driver {
+    let env = Env::single();
+    _ = env.init_with(config_with_packs(2, 4000, 4000)).expect("init");
+    let mut t = crate::c02::source(0);
+    for i in 0..300u64 {
+        t.insert(&format!("wide/s{i:03}/f"), vkit::source::Entry::file(lcg(7000 + i, 8), T0 + 100 + i as i64));
+    }
+    let mut expect = std::collections::BTreeMap::new();
+    let repo = env.open_ids().expect("open");
+    _ = backup_with(&repo, &MemSource::new("r", t.clone()), "wide", T0 + 5000, &vkit::rep::bopts()).expect("backup");
+    _ = expect.insert("wide".to_string(), model_tree("r", &t));
+    Driver {
+        name,
+        stores: env.stores(),
+        make: Box::new(move || {
+            Box::new(move |bes, gate| {
+                rustic_core::verif::limits::set_indexer_max_count(0);
+                let repo = open_with(&bes)?;
+                gate.set_enabled(true);
+                let res = repo.check(rustic_core::CheckOptions::default()).map_err(|e| e.display_log())?;
+                let errs = vkit::rep::check_result_errors(&res);
+                if !errs.is_empty() {
+                    return Err(format!("check reports {}", errs.join(" | ")));
+                }
+                let plan = repo.prune_plan(&PruneOptions::default()).map_err(|e| e.display_log())?;
+                Ok(format!("checked; plan repacks {} packs", plan.repack_packs().len()))
+            })
+        }),
+        expect,
+        cap: Some(cap),
     }
 }
 
@@ -298,7 +339,7 @@ pub fn run(args: &Args, rep: &mut Report) {
     let bound = if quick { 3 } else { 4 };
     let max_execs = if quick { 150 } else { 40_000 };
     rep.set_meta("bounds", json!(format!(
-        "completion orders of concurrently pending backend calls with <= {bound} deviations from oldest-first, <= {max_execs} executions per driver and shard; drivers: backup (one-blob packs / 3-blob packs / default packs, mid-run index saves), prune repack (fast, slow; repack-all with one-blob packs fast, slow), copy; one CPU (pariter window 2), RAYON_NUM_THREADS=1")));
+        "completion orders of concurrently pending backend calls with <= {bound} deviations from oldest-first, <= {max_execs} executions per driver and shard; drivers: backup (one-blob packs / 3-blob packs / default packs, mid-run index saves), prune repack (fast, slow; repack-all with one-blob packs fast, slow), check + prune plan over a root with 300 sub-directories, copy; one CPU (pariter window 2), RAYON_NUM_THREADS=1")));
     rep.set_meta("assumptions", json!(["interleavings are explored at the granularity of backend calls with all internal stages run to quiescence in between (DESIGN.md §8)"]));
     let drivers: Vec<Driver> = vec![
         backup_driver("backup/one-blob-packs", 10, 10, 0),
@@ -307,8 +348,9 @@ pub fn run(args: &Args, rep: &mut Report) {
         backup_driver("backup/default-packs", 4 * 1024 * 1024, 4 * 1024 * 1024, 0),
         prune_driver("prune/repack-fast", true),
         prune_driver("prune/repack-slow", false),
-        prune_driver_with("prune/repack-all-fast/one-blob-packs", true, 10, 10, true),
-        prune_driver_with("prune/repack-all-slow/one-blob-packs", false, 10, 10, true),
+        prune_driver_with("prune/repack-all-fast/one-blob-packs", true, 10, 10, true, quick.then_some(40)),
+        prune_driver_with("prune/repack-all-slow/one-blob-packs", false, 10, 10, true, quick.then_some(40)),
+        wide_tree_driver("check+prune-plan/wide-tree", if quick { 2 } else { 40 }),
         copy_driver("copy/one-blob-packs"),
     ];
     if let Some(p) = &args.replay {
@@ -352,7 +394,7 @@ pub fn run(args: &Args, rep: &mut Report) {
         }
         let (execs, capped) = explore(
             bound,
-            max_execs,
+            d.cap.map_or(max_execs, |c| c.min(max_execs)),
             (args.shard, args.nshards),
             |prefix| run_gated(&raw, d.stores.clone(), prefix, false, vec![(d.make)()], oldest_first),
             |prefix, x| {
